@@ -12,8 +12,9 @@ EXTENDS TlvModelScan, TlvModelPackets, Json, IOUtils
 CONSTANTS MaxLen, Lvl, Pks
 
 \* zero-arity constant definitions: TLC evaluates them once
-SchemaTab  == [pk \in Packets |-> SchemaOfPk(pk)]
-LettersTab == [pk \in Packets \cup {"name"} |-> Letters(pk, Lvl)]
+AllPks     == Packets \cup NestedPks
+SchemaTab  == [pk \in AllPks |-> SchemaOfPk(pk)]
+LettersTab == [pk \in AllPks \cup {"name"} |-> Letters(pk, Lvl)]
 C07Schema(cc) == SchemaTab[cc.pk]
 C07Ic(cc)     == IcOfPk(cc.pk)
 C07Input(cc)  == [i \in 1 .. Len(cc.w) |-> LettersTab[cc.pk][cc.w[i]]]
@@ -39,7 +40,13 @@ NameLaw == \A w \in NameSeqs :
              IN /\ r.ok <=> WellFormedName(NameKids(w))
                 /\ (r.ok => r.fv.comps = ExtractName(NameKids(w)))
 ASSUME NameLaw
-ASSUME \A pk \in Packets : DistinctTypes(SchemaOfPk(pk))
+ASSUME \A pk \in AllPks : DistinctTypes(SchemaOfPk(pk))
+\* the frames are well-formed packets of their parent, and the nested field is where FrameOf says
+ASSUME \A pk \in NestedPks :
+         LET f == FrameOf(pk)
+             r == RunScan(SchemaOfPk(ParentOf(pk)), FALSE, f.pre \o <<Node(f.t, <<>>)>> \o f.post)
+         IN r.status = "accept" /\ r.out[f.field].k = "model" /\ SchemaOfPk(ParentOf(pk))[f.field].t = f.t
+            /\ SchemaOfPk(ParentOf(pk))[f.field].sub = SchemaOfPk(pk) /\ SchemaOfPk(ParentOf(pk))[f.field].ic = IcOfPk(pk)
 ASSUME "name" \notin Pks \/ \A w \in NameSeqs :
           LET r == ParseValue(FName("name", N(7)), Node(N(7), NameKids(w)))
           IN PrintT(<<"S", "name", w, IF r.ok THEN "accept" ELSE "reject", r.why, <<>>>>)
@@ -51,9 +58,19 @@ LetterValue(pk, e) ==
            i == Idx(s, e.t)
        IN IF i = 0 \/ ~e.fits THEN Res(FALSE, None, "") ELSE ParseValue(ElemDesc(s[i]), e)
 ASSUME JsonSerialize(IOEnv.C07_TAB,
-         [pk \in Pks |-> [schema |-> IF pk = "name" THEN <<>> ELSE SchemaTab[pk], outer |-> OuterType(pk),
+         [pk \in Pks |-> [schema |-> IF pk = "name" THEN <<>> ELSE SchemaTab[pk],
+                          outer |-> OuterType(IF pk \in NestedPks THEN ParentOf(pk) ELSE pk),
                           letters |-> LettersTab[pk],
-                          values |-> [i \in 1 .. Len(LettersTab[pk]) |-> LetterValue(pk, LettersTab[pk][i])]]])
+                          values |-> [i \in 1 .. Len(LettersTab[pk]) |-> LetterValue(pk, LettersTab[pk][i])],
+                          \* nested levels: the frame, the parent's schema and what the parent yields for the
+                          \* frame with an empty container
+                          frame |-> IF pk \in NestedPks
+                                    THEN LET f == FrameOf(pk)
+                                             ps == SchemaTab[ParentOf(pk)]
+                                         IN [parent |-> ParentOf(pk), pre |-> f.pre, t |-> f.t, post |-> f.post, field |-> f.field,
+                                             pschema |-> ps,
+                                             pout |-> RunScan(ps, FALSE, f.pre \o <<Node(f.t, <<>>)>> \o f.post).out]
+                                    ELSE [parent |-> ""]]])
 
 \* ------------------------------------------------------------------ vacuity witnesses (must be VIOLATED)
 W_AcceptFull      == ~(Terminal /\ Verdict(c.pk, st) = "accept" /\ Len(Inp) = MaxLen)
